@@ -3,7 +3,7 @@
    check_spec: the observation is what the specification (Spec.v, template tree alone) denotes. *)
 From Coq Require Import ZArith QArith Qcanon List Bool.
 Require Import QV.common.Util QV.C02.Spec QV.C02.Model QV.C02.Stack QV.C02.Merge QV.C02.Rewrite.
-Require Import QV.C02.Flatten QV.C02.Params QV.C02.Vol.
+Require Import QV.C02.Flatten QV.C02.Params QV.C02.Vol QV.C02.Render.
 Import ListNotations.
 Open Scope Qc_scope.
 
@@ -13,6 +13,12 @@ Inductive obs :=
 | ORejected (c : eclass)                                  (* class of the exception create_program raised *)
 | ONone                                                   (* create_program returned None *)
 | OProg (dur : Qc) (ws : list window) (durc : Qc) (wsc : list window). (* duration, windows; both after cleanup() *)
+
+(* round 6: what plotting.render(prog, sample_rate, render_measurements=True, time_slice)[2] answered *)
+Inductive robs :=
+| RoOk (ws : list window)
+| RoBadSlice                                              (* ValueError("time_slice is not valid.") *)
+| RoTooShort.                                             (* PlottingNotPossibleException (fewer than 2 samples) *)
 
 Inductive case :=
 | CProg (p : pt) (en : list (N * Qc)) (mm : list (N * option N)) (o : obs)
@@ -47,6 +53,9 @@ Inductive case :=
      repetition counts of the IMPLEMENTATION's program before / after the update (the guard is evaluated on the
      observation, not on the model's programs) *)
 | CVolG (p : pt) (en en2 : list (N * Qc)) (mm : list (N * option N)) (a b : loop) (ws2 : list window)
+  (* round 6: the second observation point.  The program create_program returned for (p, en, mm) is handed to
+     plotting.render with the given sample rate and time_slice (None = default) *)
+| CRender (p : pt) (en : list (N * Qc)) (mm : list (N * option N)) (rate : Qc) (slice : option (Qc * Qc)) (o : robs)
   (* a case judged on the Python side only (flatten_and_balance / make_compatible: harness py_spec) *)
 | CPyOnly
 | CCrash.
@@ -218,6 +227,16 @@ Definition check_corr (c : case) : bool :=
       | None => false
       end
   | CVolG _ _ _ _ _ _ _ => true
+  | CRender p en mm rate slice o =>
+      match create_program p (env_of en) (mm_of mm) with
+      | Program l =>
+          match render_meas rate slice l, o with
+          | ROk ws, RoOk ws' => ms_eqb ws ws'
+          | RBadSlice, RoBadSlice | RTooShort, RoTooShort => true
+          | _, _ => false
+          end
+      | _ => false
+      end
   | CLoop l d ws wrev wclean dc =>
       Qceqb (ldur l) d && ms_eqb (loop_windows l) ws && Qceqb (ldur (cleanup l)) dc
       && match wrev with Some w => ms_eqb (loop_windows (reverse_loop l)) w | None => true end
@@ -271,6 +290,16 @@ Definition check_spec (c : case) : bool :=
   | CFlatM _ _ _ _ _ => true
   | CVolG p en en2 mm a b ws2 =>
       if vol_guard p (env_of en) (env_of en2) a b then ms_eqb (denote p (env_of en2) (mm_of mm)) ws2 else true
+  | CRender p en mm rate slice o =>
+      (* Spec.v only: the reported windows are all denoted windows (default slice) resp. exactly those overlapping the
+         slice (begin < end and begin + length > start); a refusal needs its reason (invalid slice / fewer than 2 samples
+         of the template's duration resp. the slice) *)
+      let e := env_of en in
+      match o with
+      | RoOk ws => plays p e && ms_eqb (render_denote p e (mm_of mm) slice) ws
+      | RoBadSlice => match slice with Some (s, x) => bad_slice s x | None => false end
+      | RoTooShort => match slice with Some (s, x) => too_short rate s x | None => too_short rate 0 (tdur p e) end
+      end
   | CLoop l d ws wrev wclean dc =>
       Qceqb (exec_dur l) d && ms_eqb (exec_windows l) ws
       && Qceqb d dc                                                                 (* cleanup keeps the duration, always *)
